@@ -5,8 +5,8 @@ using namespace gmlc::libguarded;
 using vrf::Cell;
 using vrf::LinOp;
 
-enum Op { LOAD, STORE, ASSIGN, EXCHANGE, CAS, DETACH_STORE, NOPS };
-static const char* const OPN[] = {"load", "store", "operator=", "exchange", "compare_exchange", "modify_detach(set)"};
+enum Op { LOAD, STORE, ASSIGN, EXCHANGE, CAS, DETACH_STORE, CAST, NOPS };
+static const char* const OPN[] = {"load", "store", "operator=", "exchange", "compare_exchange", "modify_detach(set)", "operator T()"};
 enum Fam { ATOMIC_M, ATOMIC_TM, GUARDED, GUARDED_OPT, ORDERED, DEFERRED, NFAM };
 static const char* const FAMN[] = {"atomic_guarded<mutex>", "atomic_guarded<timed_mutex>", "guarded", "guarded_opt", "ordered_guarded", "deferred_guarded"};
 
@@ -17,6 +17,7 @@ struct RegModel {
     {
         switch (o.op) {
             case LOAD:
+            case CAST:
                 if (o.r == s) out.push_back(s);
                 return;
             case STORE:
@@ -67,6 +68,16 @@ static void run_ops(W& w, int fam, int tid, const std::vector<POp>& script, std:
             if (c.n > 1) vrf::violation("oracle:torn_payload", "{\"what\":\"loaded value mixes two stores\"}");
             o.r = c.value();
             last_seen = static_cast<int>(o.r);
+        }
+        if constexpr (std::is_same<W, atomic_guarded<Cell, vrf::mutex_t>>::value || std::is_same<W, atomic_guarded<Cell, vrf::timed_mutex_t>>::value ||
+                      std::is_same<W, ordered_guarded<Cell, vrf::shared_timed_mutex_t>>::value) {
+            if (p.op == CAST) {  // conversion operator: behaves as a load
+                Cell c = static_cast<Cell>(static_cast<const W&>(w));
+                c.check("converted value");
+                if (c.n > 1) vrf::violation("oracle:torn_payload", "{\"what\":\"converted value mixes two stores\"}");
+                o.r = c.value();
+                last_seen = static_cast<int>(o.r);
+            }
         }
         if constexpr (std::is_same<W, atomic_guarded<Cell, vrf::mutex_t>>::value || std::is_same<W, atomic_guarded<Cell, vrf::timed_mutex_t>>::value) {
             if (p.op == EXCHANGE) {
@@ -120,15 +131,16 @@ static void one_round(long r, int fam, W* wp)
     std::vector<std::vector<POp>> scripts;
     int next = 1;
     std::vector<int> ops;
-    if (fam == ATOMIC_M || fam == ATOMIC_TM) ops = {LOAD, STORE, ASSIGN, EXCHANGE, CAS, CAS};
+    if (fam == ATOMIC_M || fam == ATOMIC_TM) ops = {LOAD, STORE, ASSIGN, EXCHANGE, CAS, CAS, CAST};
     else if (fam == DEFERRED) ops = {LOAD, DETACH_STORE};
+    else if (fam == ORDERED) ops = {LOAD, STORE, ASSIGN, CAST};
     else ops = {LOAD, STORE, ASSIGN};
     for (int t = 0; t < nt; t++) {
         std::vector<POp> sc;
         int n = static_cast<int>(rng.range(3, 6));
         for (int i = 0; i < n; i++) {
             POp p{ops[rng.below(ops.size())], 0, static_cast<int>(rng.below(2)), 0};
-            if (p.op != LOAD) p.val = next++;
+            if (p.op != LOAD && p.op != CAST) p.val = next++;
             p.exp_id = static_cast<int>(rng.below(static_cast<uint64_t>(next)));
             sc.push_back(p);
         }
